@@ -351,7 +351,7 @@ def forest_body(case):
 def plan(tier):
     shards = [{"name": "grid-" + k, "type": "grid", "kind": k} for k in KINDS]
     shards += [{"name": "persist-" + f, "type": "persist", "fmt": f} for f in ("XML", "JSON", "YAML")]
-    nshards, n = (8, 250) if tier == "quick" else (10, 2000)
+    nshards, n = (8, 250) if tier == "quick" else (10, 15000)
     shards += [{"name": "hist%d" % i, "type": "hist", "n": n} for i in range(nshards)]
     shards += [{"name": "forest%d" % i, "type": "forest", "n": n} for i in range(2 if tier == "quick" else 4)]
     return shards
